@@ -227,6 +227,7 @@ def make_trace(tid, rng, nops=25, **opt):
         v, grain, gtes, ng = rng.choice(["hosted", "footer"]), 8, 4, rng.randrange(600, 800)
         gbytes = grain * 512
     npos = ng + 2
+    fid, csalt = rng.randrange(0, 0x90), rng.randrange(1, 1 << 18) * 4096    # identity of this image (pattern file id, compressed-unit salt)
     pos = list(range(1, npos + 1))
     if rng.random() < 0.6:
         rng.shuffle(pos)
@@ -248,13 +249,14 @@ def make_trace(tid, rng, nops=25, **opt):
         vf, info = enc_vmdk.build_hosted(ents, present, capacity=capacity, grain=grain, gtes=gtes, footer=(v != "hosted"),
                                          compressed=(v == "stream"), lba=rng.random() < 0.5, max_pos=npos + 1, tight=rng.random() < 0.6,
                                          # header fields that do not influence the mapping: redundant directory offset, unclean-shutdown marker, version
-                                         rgd_off=rng.choice([0, 0, 21, 1 << 40]), unclean=rng.choice([0, 1]), version=rng.choice([1, 1, 2, 3]))
+                                         rgd_off=rng.choice([0, 0, 21, 1 << 40]), unclean=rng.choice([0, 1]), version=rng.choice([1, 1, 2, 3]),
+                                         file_id=fid, csalt=csalt)
     elif v == "cowd":
-        vf, info = enc_vmdk.build_cowd(ents, present, capacity=capacity, grain=grain, max_pos=npos + 1)
+        vf, info = enc_vmdk.build_cowd(ents, present, capacity=capacity, grain=grain, max_pos=npos + 1, file_id=fid)
     else:
         vf, info = enc_vmdk.build_sesparse(ents, present, capacity=capacity, grain=grain, gt_sectors=gtes // 64, max_pos=npos + 1,
-                                           pos_base=rng.choice([0, 0, 0xFFF, 0x1000, 70000]))
-    b = disk.Built(open=lambda: _open_vmdk(vf), cell=gbytes, size=cap_b, bases={0: info["data_base"]})
+                                           pos_base=rng.choice([0, 0, 0xFFF, 0x1000, 70000]), file_id=fid)
+    b = disk.Built(open=lambda: _open_vmdk(vf), cell=gbytes, size=cap_b, bases={0: info["data_base"]}, fids={0: fid}, csalt=csalt if v == "stream" else 0)
     s = b.open()
     fresh = b.open()
     rec = record.Recorder(s, cap_b, probe=fresh.readoffset, align=opt.get("align"))
